@@ -2422,7 +2422,12 @@ class Trimesh(Geometry3D):
         convex : trimesh.Trimesh
           Mesh of convex hull of current mesh
         """
-        return convex.convex_hull(self)
+        hull = convex.convex_hull(self)
+        # this object is stored in the cache and handed to every caller
+        # (and to copies made with `include_cache`): moving it in place
+        # would change what the mesh reports about itself
+        hull.mutable = False
+        return hull
 
     def sample(
         self,
